@@ -119,8 +119,28 @@ def signature(inv, excerpt):
     return "%s@%s%s" % (inv, ev, detail)
 
 
-def judge(ctx, tracefile, invs, label):
-    """One TLC run of EngineObs.tla over the whole trace; it reports every (predicate, line) first failure."""
+def rerun_fails(ctx, header, schedule, inv, k):
+    """Replay one behaviour alone on the real Commander and ask TLC whether inv fails on what is observed."""
+    import re
+    bdir = ctx.mkdir("confirm-%d" % k)
+    with open(os.path.join(bdir, "b0.ndjson"), "w") as f:
+        f.write(json.dumps({"req": header["req"], "design": header.get("design", {})}) + "\n")
+        for st in schedule:
+            f.write(json.dumps(st) + "\n")
+    out = ctx.path("confirm-%d.ndjson" % k)
+    ctx.run([ctx.build("engineconf"), "-in", bdir, "-out", out, "-stats", ctx.path("confirm-stats.json")], timeout=600)
+    res = ctx.tlc("EngineObs", "SPECIFICATION OSpec\nCONSTANT TraceFile = \"%s\"\nPOSTCONDITION Post\nCHECK_DEADLOCK FALSE\n" % out,
+                  "confirm-%d" % k, workers=1, timeout=600)
+    if res["status"] != "ok" or "OBS-VERDICT" not in res["output"]:
+        raise Infra("EngineObs did not deliver a verdict while confirming (%s)" % res["status"])
+    return inv in [m.group(1) for m in re.finditer(r'<<"(\w+)", (\d+)>>', res["output"].split("OBS-VERDICT", 1)[1])]
+
+
+def judge(ctx, tracefile, invs, label, confirm=True):
+    """One TLC run of EngineObs.tla over the whole trace; it reports every (predicate, line) first failure.
+    A failure becomes a violation only if the same behaviour, replayed alone twice more, fails the same predicate
+    both times: the replay is deterministic (gated scheduler), so what does not reproduce was an artefact of the
+    harness (a time-out under load), not a behaviour of the code."""
     import re
     res = ctx.tlc("EngineObs", "SPECIFICATION OSpec\nCONSTANT TraceFile = \"%s\"\nPOSTCONDITION Post\nCHECK_DEADLOCK FALSE\n" % tracefile,
                   "obs-" + label, workers=1, timeout=1800)
@@ -135,6 +155,7 @@ def judge(ctx, tracefile, invs, label):
     lines = common.read_ndjson(tracefile)
     execs = split_exec(lines)
     seen = set()
+    tries = {}
     for inv, l in mine:
         hit = [(s, e) for (s, e) in execs if s < l <= s + len(e)]
         if not hit:
@@ -147,6 +168,17 @@ def judge(ctx, tracefile, invs, label):
         seen.add(sig)
         obs = [x for x in excerpt if x.get("ev") in ("persist", "resp", "publish", "crash", "hung", "end")]
         what = "%s fails on the real Commander; observable history: %s" % (inv, json.dumps(obs)[:1200])
+        if confirm:
+            k = ctx.coverage.get("confirmation_replays", 0)
+            ctx.coverage["confirmation_replays"] = k + 2
+            schedule = [x for x in e if x.get("ev") == "step"]
+            if not (rerun_fails(ctx, excerpt[0], schedule, inv, k) and rerun_fails(ctx, excerpt[0], schedule, inv, k + 1)):
+                ctx.coverage["unconfirmed_observations"] = ctx.coverage.get("unconfirmed_observations", 0) + 1
+                ctx.notes.append("UNCONFIRMED: %s (%s) was observed once and did not reproduce when its behaviour was replayed alone twice; dropped" % (inv, sig))
+                tries[sig] = tries.get(sig, 0) + 1
+                if tries[sig] < 2:
+                    seen.discard(sig)   # one more occurrence of the same shape gets a chance
+                continue
         ctx.violation(sig, what, {"kind": "engine-trace", "header": excerpt[0],
                                   "schedule": [x for x in e if x.get("ev") == "step"],
                                   "observed": obs, "src": excerpt[0].get("src")})
@@ -313,5 +345,5 @@ def replay_prop(ctx, prop, path):
     binp = ctx.build("engineconf")
     out = ctx.path("trace.ndjson")
     ctx.run([binp, "-in", bdir, "-out", out, "-stats", ctx.path("stats.json")], timeout=300)
-    judge(ctx, out, PROPS[prop]["invs"], "replay")
+    judge(ctx, out, PROPS[prop]["invs"], "replay", confirm=False)
     ctx.coverage.update({"states": 1, "transitions": 1, "traces_validated_against_impl": 1, "samples": [rp["schedule"][:5]]})
